@@ -17,7 +17,7 @@ git -C /repo worktree add -q --detach $WT HEAD || exit 2
 (cd /repo && git ls-files --others --exclude-standard | grep verif_hooks | while read f; do mkdir -p $WT/$(dirname $f); cp $f $WT/$f; done)
 mkdir -p $WT/$(dirname $DEMO_PATH)
 DEMOS=""
-for f in $(ls $D | grep -v -e patch.diff -e meta.json); do cp $D/$f $WT/$(dirname $DEMO_PATH)/$f; DEMOS="$DEMOS $WT/$(dirname $DEMO_PATH)/$f"; done
+for f in $(ls -p $D | grep -v -e patch.diff -e meta.json -e /); do cp $D/$f $WT/$(dirname $DEMO_PATH)/$f; DEMOS="$DEMOS $WT/$(dirname $DEMO_PATH)/$f"; done
 cd $WT
 echo "== demo on unchanged tree (must pass): $DEMO_RUN"; ( eval "$DEMO_RUN" ) >/tmp/sc-$$.log 2>&1; A=$?; tail -3 /tmp/sc-$$.log
 git apply $D/patch.diff || { echo "PATCH DOES NOT APPLY"; cd /; git -C /repo worktree remove --force $WT; exit 2; }
